@@ -5,6 +5,7 @@
 import Gzx.Model.DetWhiteRect
 import Gzx.Model.DetQRDetector
 import Gzx.Model.DetDM
+import Gzx.Model.DetAztec
 namespace Gzx.Driver.C06Det
 open Gzx Gzx.Det
 
@@ -166,6 +167,20 @@ def handleDM : List String → Option String
     | .error e => showFault e
   | _ => none
 
+def handleAZ : List String → Option String
+  | ["azcenter", w, h, bits] => some <| withImg w h bits fun img w h =>
+    match AZ.getMatrixCenter FOps.float img.rdGo w h with
+    | .ok p => s!"ok {p.1},{p.2}"
+    | .error e => showFault e
+  | ["azgfd", w, h, bits, x, y, color, dx, dy] => some <| withImg w h bits fun img w h =>
+    match ints? [x, y, dx, dy] with
+    | some [x, y, dx, dy] =>
+      match AZ.getFirstDifferent img.rdGo w h (x, y) (color == "1") dx dy with
+      | .ok p => s!"ok {p.1},{p.2}"
+      | .error e => showFault e
+    | _ => "bad-op"
+  | _ => none
+
 def handleWRD : List String → String
   | ["wrd", w, h, bits, initSize, x, y] =>
     match parseNat? w, parseNat? h, parseInt? initSize, parseInt? x, parseInt? y with
@@ -194,6 +209,9 @@ def handle (args : List String) : String :=
   | none =>
     match handleDM args with
     | some r => r
-    | none => handleWRD args
+    | none =>
+      match handleAZ args with
+      | some r => r
+      | none => handleWRD args
 
 end Gzx.Driver.C06Det
